@@ -208,6 +208,7 @@ type VC struct {
 	recInst     map[string]string
 	axInst      map[string]bool
 	clock0      string
+	entryHeap   *Heap
 	curProps    []string
 	quiet       bool // drop obligations (pure evaluation)
 }
